@@ -28,12 +28,13 @@ Signers == {"ours", "otherrsa", "otherec", "none", "hmacpub"}
 \* notype / nulltype: the claim that says what kind of artefact this is, removed / null; expjust: expired three seconds ago
 \* isslike / audlike: issuer / audience of ANOTHER server whose URL merely begins with ours (other port, longer host name)
 \* nbfjust: not valid for another 90 seconds
-Muts == {"none", "iss", "aud", "isslike", "audlike", "nbf", "nbfjust", "exp", "expjust", "notype", "nulltype", "tamper", "sigflip", "corrupt"}
+\* noexp / expzero: issued a month ago with no expiry claim / an expiry of zero
+Muts == {"none", "iss", "aud", "isslike", "audlike", "nbf", "nbfjust", "exp", "expjust", "noexp", "expzero", "notype", "nulltype", "tamper", "sigflip", "corrupt"}
 
 Art(k, s, m) == [kind |-> k, signer |-> s, mut |-> m]
 
 Intact(a)   == a.signer = "ours" /\ a.mut \notin {"tamper", "sigflip", "corrupt"}
-InWindow(a) == a.mut \notin {"exp", "expjust"} /\ (a.mut \in {"nbf", "nbfjust"} => BaseKind(a.kind) \notin HasNbf)
+InWindow(a) == a.mut \notin {"exp", "expjust", "noexp", "expzero"} /\ (a.mut \in {"nbf", "nbfjust"} => BaseKind(a.kind) \notin HasNbf)
 G_C04_Signed(c, a)  == Intact(a)
 G_C04_Kind(c, a)    == BaseKind(a.kind) = Consumes[c] /\ a.mut \notin {"notype", "nulltype"}
 G_C04_Window(c, a)  == InWindow(a)
@@ -124,7 +125,7 @@ Spec == Init /\ [][Next]_vars
 \* headline clauses, checked by TLC over the tables
 NeverInterchangeable == (Which = "C04" /\ out # Pending /\ out.honoured) => BaseKind(req.art.kind) = Consumes[req.consumer]
 OnlyOurSignature     == (Which = "C04" /\ out # Pending /\ out.honoured) => req.art.signer = "ours"
-AlterationRejected   == (Which = "C04" /\ out # Pending /\ req.art.mut \in {"tamper", "sigflip", "corrupt", "exp"}) => ~out.honoured
+AlterationRejected   == (Which = "C04" /\ out # Pending /\ req.art.mut \in {"tamper", "sigflip", "corrupt", "exp", "noexp", "expzero"}) => ~out.honoured
 OnlyToTheRightClient == (Which = "C12" /\ out # Pending /\ out.released) =>
                            (req.caller = req.codeclient /\ req.code \in {"fresh", "fresh_late"} /\ req.redirect = "same" /\
                             (req.caller = "A" => req.secret = "right") /\ (req.caller = "B" => req.verifier \in {"right", "challenge"}))
